@@ -151,6 +151,9 @@ def seeds(only=()):
     items = []
     for mdir in sorted(glob.glob(os.path.join(VERIF, "seeded", "S*"))):
         meta = json.load(open(os.path.join(mdir, "meta.json")))
+        if meta.get("open_item"):
+            print("selftest seeds: %s skipped (OPEN: %s)" % (os.path.basename(mdir), meta["open_item"][:80]))
+            continue
         if meta.get("neutralised_by"):
             print("selftest seeds: %s skipped (no longer breaks the property: %s)" % (os.path.basename(mdir), meta["neutralised_by"][:60]))
             continue
